@@ -465,3 +465,60 @@ def lone_restart_ack(seed=1, own=60, others=200):
         return probs, stats
     finally:
         cl.shutdown()
+
+
+def snapshot_boundary(n=20, seed=1):
+    """A node that began its current life from a snapshot (restarted after taking one) applies exactly snapCount further entries,
+    one per Ready (one client, one command at a time): the snapshot it then takes, and the compaction that follows, must not
+    bring it down, and every acknowledged write stays readable through every node. Returns (problems, stats)."""
+    cl = cluster.Cluster(3, snapcount=n, catchup=n, trace=False).start_all()
+    stats = {"snapcount": n, "acked": 0}
+    probs = []
+    try:
+        if cl.wait_serving(timeout=60) is None:
+            return None, dict(stats, inconclusive="cluster did not start serving")
+        acked = {}
+
+        def burst(c, lo, hi):
+            for i in range(lo, hi):
+                k, val = "sb%d" % i, "v%d-%d" % (seed, i)
+                r = c.cmd("SET", k, val, timeout=10.0)
+                if r[0] == "+":
+                    acked[k] = val
+        c = cl.nodes[0].client(timeout=10.0)
+        burst(c, 0, n + 4)                       # every node takes its first snapshot
+        victim = cl.nodes[1]
+        cl.kill(victim)
+        cl.start_node(victim)                    # ... and this one starts again from it
+        if cl.wait_serving(nodes=[victim], timeout=60) is None:
+            return None, dict(stats, inconclusive="the restarted node did not come back")
+        try:
+            c.close()
+        except Exception:
+            pass
+        c = cl.nodes[0].client(timeout=10.0)
+        try:
+            burst(c, n + 4, 3 * n + 12)          # crosses snapshotIndex + snapCount on every node, one entry at a time
+        except Exception as e:
+            stats["burst_error"] = repr(e)
+        c.close()
+        stats["acked"] = len(acked)
+        time.sleep(1.0)
+        for nd in cl.nodes[:3]:
+            if not nd.alive():
+                log = cl.tail(nd, 6000)
+                at = log.find("panic:")
+                probs.append({"kind": "node-died", "node": nd.id, "restarted_from_snapshot": nd is victim,
+                              "detail": "node %d died by itself while the cluster applied one command at a time across its snapshot threshold (%d entries)%s: %s" % (
+                                  nd.id, n, " after it had been restarted from its snapshot" if nd is victim else "", log[at:at + 300] if at >= 0 else log[-300:])})
+        if probs:
+            return probs, stats
+        for nd in cl.nodes[:3]:
+            cc = nd.client(timeout=10.0)
+            missing = [k for k, val in acked.items() if (cc.cmd("GET", k, timeout=10.0)[1] or b"") != val.encode()]
+            cc.close()
+            if missing:
+                stats.setdefault("missing", {})[nd.id] = len(missing)      # reported by the crash scenarios (known finding: snapshots are not loaded)
+        return probs, stats
+    finally:
+        cl.shutdown()
